@@ -130,8 +130,8 @@ class OpenModel:
         self.hdr_size, self.rec_size = hdr['size'], rec['size']
         HDR.update(common.abi_names(fb)['hdr'])
         # (a validation written as a loop over a constant table of checks is unrolled: the table's length bounds it)
-        self.engine = common.mk_engine(fb, loop_unroll=8)
-        self.paths = [p for p in self.engine.run(self.body) if p.kind != 'unreachable']
+        self.engine, ps = common.run_unrolled(fb, self.body)
+        self.paths = [p for p in ps if p.kind != 'unreachable']
         chk.analysed['paths'] += len(self.paths)
         for p in self.engine.inlined:
             chk.analysed['functions'].add(p)
